@@ -38,7 +38,20 @@ DYN = ['x', 's', 'xs', 'top.cnt', '(do (print "p") 3)', '(do (step) 0)', '(do (s
 
 def gen_sensitive(rng):
     """shapes on which the rewrites decide: literal conditions, literal prefixes followed by run-time operands"""
-    k = rng.choice(['if', 'if', '+', '+', '*', '&&', '||', 'do', 'nest', 'ifbool', 'fsum'])
+    k = rng.choice(['if', 'if', '+', '+', '*', '&&', '||', 'do', 'nest', 'ifbool', 'fsum', 'typed', 'emptydo'])
+    if k == 'typed':
+        # constant expressions whose operands are equal as numbers but differ in type: each folds to the value of its own type
+        sets = [['(+ 1 2)', '(+ 1.0 2)', '(+ #t 2)', '(+ 1 2.0)'], ['(* 2 0)', '(* 2.0 0)', '(* 2 0.0)', '(* #t 0)'],
+                ['(+ 0.0 0.0)', '(+ 0 0)', '(+ #f 0)'], ['(* 1 1)', '(* 1.0 1)', '(* #t #t)', '(* 1 1.0)'], ['(+ 3 -1)', '(+ 3.0 -1)', '(+ 3 -1.0)']]
+        fs = list(rng.choice(sets))
+        rng.shuffle(fs)
+        return '(list ' + ' '.join(fs) + ')'
+    if k == 'emptydo':
+        # an empty do yields nothing; as last statement it decides the value of the enclosing do
+        v = rng.choice(['5', 'x', '(do (set [y (+ y 1)]) 3)', '"a"'])
+        e = rng.choice(['(do)', '(do (do))', '(if #t (do))', '(when #t)', '(do (do) (do))'])
+        return rng.choice([f'(do {v} {e})', f'(if (do {v} {e}) (print "then") (print "else"))', f'(list (do {v} {e}) (do {e} {v}))',
+                           f'(do {v} (do {v} {e}))'])
     if k == 'ifbool':
         # the branches are the two booleans (or 1/0) and the condition is a run-time value that is not itself a boolean
         c = rng.choice(DYN + ['x', 's', 'xs', 'top.cnt', '(+ x 2)', '(list)', '""', '(do (set [y 7]))'])
